@@ -458,13 +458,20 @@ func cmdDriveNetIndex(args []string) error {
 	// the last line of the first list (no line break after it) is needed by the very last request only
 	keep = append(keep[:third-1], append([]string{"||last-line-of-list-one.example^"}, keep[third-1:]...)...)
 	reqs = append(reqs, reqJSON{URL: "http://last-line-of-list-one.example/x.js", FrameURL: "http://other.example/", Cpt: "script"})
+	// a fourth list: more than 16 MiB of comments in front of its rules - an offset inside a list is a 32-bit number
+	bigRules := []string{"||beyond-16mib.example^", "/far-away-banner/$domain=beyond-16mib.example", "@@||beyond-16mib.example/ok^"}
+	reqs = append(reqs, reqJSON{URL: "http://beyond-16mib.example/far-away-banner/1.png", FrameURL: "http://beyond-16mib.example/", Cpt: "image"},
+		reqJSON{URL: "http://beyond-16mib.example/ok", FrameURL: "", Cpt: "script"})
+	big := strings.Repeat("! "+strings.Repeat("padding ", 512)+"\n", 4200) + strings.Join(bigRules, "\n") + "\n"
 	st, err := filterlist.NewRuleStorage([]filterlist.RuleList{
 		&filterlist.StringRuleList{ID: 1, RulesText: strings.Join(keep[:third], "\n")},
 		&filterlist.StringRuleList{ID: -2, RulesText: "\xef\xbb\xbf! Title: second list\n" + strings.Join(keep[third:2*third], "\n")},
-		&filterlist.StringRuleList{ID: 3, RulesText: "! Title: third list\r\n" + strings.Join(keep[2*third:], "\r\n") + "\r\n"}})
+		&filterlist.StringRuleList{ID: 3, RulesText: "! Title: third list\r\n" + strings.Join(keep[2*third:], "\r\n") + "\r\n"},
+		&filterlist.StringRuleList{ID: 44, RulesText: big}})
 	if err != nil {
 		return err
 	}
+	keep = append(keep, bigRules...) // for the line-by-line reference
 	eng := urlfilter.NewNetworkEngine(st)
 	// the same three texts as files (the first one ends without a line break): a second engine whose answers are logged
 	// as events of their own
@@ -475,12 +482,12 @@ func cmdDriveNetIndex(args []string) error {
 	defer os.RemoveAll(fdir)
 	var flists []filterlist.RuleList
 	for i, txt := range []string{strings.Join(keep[:third], "\n"), "\xef\xbb\xbf! Title: second list\n" + strings.Join(keep[third:2*third], "\n"),
-		"! Title: third list\r\n" + strings.Join(keep[2*third:], "\r\n") + "\r\n"} {
+		"! Title: third list\r\n" + strings.Join(keep[2*third:len(keep)-len(bigRules)], "\r\n") + "\r\n", big} {
 		fp := filepath.Join(fdir, fmt.Sprintf("list%d.txt", i))
 		if err = os.WriteFile(fp, []byte(txt), 0o600); err != nil {
 			return err
 		}
-		fl, err := filterlist.NewFileRuleList([]int{1, -2, 3}[i], fp, false)
+		fl, err := filterlist.NewFileRuleList([]int{1, -2, 3, 44}[i], fp, false)
 		if err != nil {
 			return err
 		}
@@ -545,7 +552,7 @@ func cmdDriveNetIndex(args []string) error {
 	cst, err := filterlist.NewRuleStorage(func() []filterlist.RuleList {
 		var ls []filterlist.RuleList
 		for i := range flists {
-			fl, err := filterlist.NewFileRuleList([]int{1, -2, 3}[i], filepath.Join(fdir, fmt.Sprintf("list%d.txt", i)), false)
+			fl, err := filterlist.NewFileRuleList([]int{1, -2, 3, 44}[i], filepath.Join(fdir, fmt.Sprintf("list%d.txt", i)), false)
 			if err != nil {
 				panic(err)
 			}
